@@ -23,4 +23,7 @@ Spec == GenSpec
 cScalars == {VS("x"), VNil}
 cConts == {EmptyMap, EmptyList}
 cNewVals == {VS("N"), VM("n" :> VS("N"))}
+\* placeholder alphabets (check.py SUBST)
+cScalarsLong == {VS("^"), VNil}
+cNewValsLong == {VS("N^"), VM("~" :> VS("N"))}
 =============================================================================
